@@ -20,6 +20,7 @@ pub static PROP: Prop = Prop {
     rule: "one group per case: (a) dagger laws on generated diagrams and composable pairs, strict and lax; (b) spider fusion on pairs of generated labelled cospans with matching boundary types (non-injective / non-surjective legs, empty node sets), plus identity/symmetry/half-spider as spiders; (c) spider construction on raw legs whose codomain is |w|-1, |w| or |w|+1; non-trivial = (a) s != t and >= 1 hyperedge, (b) at least one merge and at least one node missed by a leg, (c) a rejected construction; distinct = hash of the generated data",
     assumptions: &["cospan composition on the plain model (union-find gluing) is the specification of spider fusion"],
     fixed: None,
+    scale: None,
 };
 
 fn check(t: &mut Tape, ctx: &mut Ctx) -> CheckResult {
